@@ -127,9 +127,25 @@ def sd_dtc(r):
 
 
 # ---- invocation ----------------------------------------------------------------------------------------
-def memloc(a, i):
+def memloc(a, i, client=None):
+    """the MemoryLocation argument of a call.  When the client carries the mark _verif_reuse_memloc the application keeps ONE
+    MemoryLocation per (explicit address format, explicit size format) and moves it along by assigning .address / .memorysize
+    (its attributes are public); a location is a value: the request must be the one a fresh object would give."""
     from udsoncan import MemoryLocation
-    return MemoryLocation(a[i], a[i + 1], address_format=oi(a, i + 2), memorysize_format=oi(a, i + 4))
+    af, sf = oi(a, i + 2), oi(a, i + 4)
+    if client is not None and getattr(client, '_verif_reuse_memloc', False):
+        cache = client.__dict__.setdefault('_verif_memlocs', {})
+        m = cache.get((af, sf))
+        if m is not None:
+            m.address, m.memorysize = a[i], a[i + 1]
+            return m
+        try:
+            m = cache[(af, sf)] = MemoryLocation(a[i], a[i + 1], address_format=af, memorysize_format=sf)
+        except Exception:
+            cache.pop((af, sf), None)
+            raise
+        return m
+    return MemoryLocation(a[i], a[i + 1], address_format=af, memorysize_format=sf)
 
 
 def do_call(client, callid, a, b):
@@ -153,12 +169,12 @@ def do_call(client, callid, a, b):
     if callid == 16:
         return client.control_dtc_setting(a[0], ob(a, 1, b, 0)), sd_cds
     if callid == 17:
-        return client.read_memory_by_address(memloc(a, 0)), sd_rmba
+        return client.read_memory_by_address(memloc(a, 0, client)), sd_rmba
     if callid == 18:
-        return client.write_memory_by_address(memloc(a, 0), b[0]), sd_wmba
+        return client.write_memory_by_address(memloc(a, 0, client), b[0]), sd_wmba
     if callid == 19:
         dfi = DataFormatIdentifier(a[8], a[9]) if a[7] == 1 else None
-        ml = memloc(a, 1)
+        ml = memloc(a, 1, client)
         return (client.request_upload(ml, dfi) if a[0] == 1 else client.request_download(ml, dfi)), sd_rud
     if callid == 20:
         did, kind, n = a[0], a[1], a[2]
